@@ -56,10 +56,13 @@ fn recipe_spec(rng: &mut Rng, w: &World, name_only_timers: bool) -> RecipeSpec {
     let mut defined: Vec<&str> = vec![];
     // servings as written, in declaration order (the first one is the base of scale_to_servings)
     let mut declared_servings: Option<Vec<u32>> = None;
+    // further metadata entries (the frame clause: scaling and conversion leave the whole map alone): strings that need escaping, numbers, nested YAML
+    let extra = match rng.below(4) { 0 => "title: \"Pan \\\"cake\\\"\"\ntags: [a, b, 3]\n", 1 => "nutrition: {kcal: 250.5, vegan: true, per: {g: 100}}\nsource: null\n", 2 => "author: é ü\ntime: 1h 30 min\nnotes:\n  - one\n  - 2.5\n", _ => "" };
     match rng.below(8) {
-        0 => { let a = rng.range(1, 12) as u32; s.push_str(&format!("---\nservings: {a}\n---\n")); declared_servings = Some(vec![a]); }
-        1 => { let (a, b) = (rng.range(1, 6) as u32, rng.range(7, 12) as u32); s.push_str(&format!("---\nservings: {a}|{b}\n---\n")); declared_servings = Some(vec![a, b]); }
+        0 => { let a = rng.range(1, 12) as u32; s.push_str(&format!("---\n{extra}servings: {a}\n---\n")); declared_servings = Some(vec![a]); }
+        1 => { let (a, b) = (rng.range(1, 6) as u32, rng.range(7, 12) as u32); s.push_str(&format!("---\nservings: {a}|{b}\n{extra}---\n")); declared_servings = Some(vec![a, b]); }
         2 => { let (a, b) = (rng.range(1, 6) as u32, rng.range(7, 12) as u32); s.push_str(&format!("---\ntitle: test\nservings: [{a}, {b}]\n---\n")); declared_servings = Some(vec![a, b]); }
+        4 if !extra.is_empty() => s.push_str(&format!("---\n{extra}---\n")),
         3 => { // not in ascending order
             let mut v: Vec<u32> = vec![rng.range(7, 12) as u32, rng.range(1, 3) as u32, rng.range(4, 6) as u32];
             if rng.chance(1, 2) { v.truncate(2); }
@@ -267,6 +270,27 @@ fn check_default(ctx: &mut Ctx, input: &str, before: &ScalableRecipe, after: &Sc
     }
 }
 
+
+// ---------------------------------------------------------------- the recipe WITH its metadata map and `data` (model: Num/ScaleM.lean, op `scm`)
+
+/// `( full META DATA RECIPE )` of Driver/Serde.lean; None when the metadata is not JSON-representable (C15's known finding)
+fn full_sexp(r: &ScalableRecipe) -> Option<String> {
+    let m = crate::props::c15::kvs(&r.metadata.map).ok()?;
+    Some(format!("( full {m} {} {} )", crate::recipe_sexp::opt(r.servings(), |s| crate::recipe_sexp::list(s, |n| n.to_string())), crate::recipe_sexp::scalable_recipe(r)))
+}
+/// the whole result (metadata, sections, components, inline quantities, scaling data) against the model; the metadata frame as an oracle
+fn scm_case(ctx: &mut Ctx, op: String, meta_before: &str, after: &ScaledRecipe, inp: &str) {
+    let meta_after = serde_json::to_string(&after.metadata).unwrap_or_default();
+    if meta_after != meta_before {
+        ctx.oracle_fail(inp.into(), format!("metadata changed: {meta_before} became {meta_after}"), "c08:metadata".into());
+    }
+    if !crate::props::c15::scaled_finite(after) { ctx.count("scm:non-finite"); return; }
+    match serde_json::to_string(after).map_err(|e| e.to_string()).and_then(|js| crate::props::c15::canon_json(&js)) {
+        Ok(cj) => { ctx.count("scm:compared"); ctx.case(op, cj, true, inp.into()) }
+        Err(e) => ctx.notes.push(format!("scm: JSON image not available: {e}")),
+    }
+}
+
 // ---------------------------------------------------------------- one recipe
 
 fn recipe_case(ctx: &mut Ctx, w: &World, parser: &CooklangParser, spec: &RecipeSpec, f: f64, target: u32, force_servings: Option<Vec<u32>>) {
@@ -283,6 +307,11 @@ fn recipe_case(ctx: &mut Ctx, w: &World, parser: &CooklangParser, spec: &RecipeS
     ctx.count_n("recipe:timers", before.timers.len() as u64);
     ctx.count_n("recipe:cookware", before.cookware.len() as u64);
     let nontrivial = before.ingredients.iter().any(|i| i.quantity.is_some());
+    // the same recipe with its metadata map and servings, for the `scm` operations (set_servings is applied by the model: the S-expression is the recipe as parsed)
+    let unforced = if force_servings.is_some() { guarded(|| parser.parse(text).into_output()).ok().flatten() } else { None };
+    let full = full_sexp(unforced.as_ref().unwrap_or(&before));
+    let meta_before = serde_json::to_string(&before.metadata).unwrap_or_default();
+    if !before.metadata.map.is_empty() { ctx.count("scm:has-metadata"); }
 
     // which values are Linear: the model's decision for what the generator wrote
     if spec.ingredients.len() == before.ingredients.len() && force_servings.is_none() {
@@ -305,6 +334,14 @@ fn recipe_case(ctx: &mut Ctx, w: &World, parser: &CooklangParser, spec: &RecipeS
         Ok(Some(after)) => {
             ctx.case(format!("sc {} scale {} {items}", w.tag, bits(f)), render_scaled(&after), nontrivial, inp.clone());
             check_scaled(ctx, w, &inp, &before, &after, f);
+            if let (Some(full), None) = (&full, &force_servings) {
+                scm_case(ctx, format!("scm {} scale {} {full}", w.tag, bits(f)), &meta_before, &after, &inp);
+                let sys = if f.to_bits() % 2 == 0 { cooklang::convert::System::Metric } else { cooklang::convert::System::Imperial };
+                let mut conv = after;
+                if guarded(|| { let _ = conv.convert(sys, &w.conv); }).is_ok() {
+                    scm_case(ctx, format!("scm {} convert {} {} {full}", w.tag, if sys == cooklang::convert::System::Metric { "metric" } else { "imperial" }, bits(f)), &meta_before, &conv, &format!("{inp}, convert({sys:?})"));
+                }
+            }
         }
         Ok(None) => {}
         Err(p) => ctx.oracle_fail(inp, format!("panic {p}"), panic_signature(&p)),
@@ -317,6 +354,12 @@ fn recipe_case(ctx: &mut Ctx, w: &World, parser: &CooklangParser, spec: &RecipeS
     match guarded(|| parse().map(|r| r.scale_to_servings(target, &w.conv))) {
         Ok(Some(after)) => {
             ctx.case(format!("sc {} servings {target} {sspec} {items}", w.tag), render_scaled(&after), nontrivial, inp.clone());
+            if let Some(full) = &full {
+                match &force_servings {
+                    None => scm_case(ctx, format!("scm {} servings {target} {full}", w.tag), &meta_before, &after, &inp),
+                    Some(s) => { ctx.count("scm:set_servings"); scm_case(ctx, format!("scm {} setservings {target} {} {full}", w.tag, crate::recipe_sexp::list(s, |n| n.to_string())), &meta_before, &after, &inp) }
+                }
+            }
             // the base is the FIRST DECLARED value (read from what the generator wrote, not from the API)
             if force_servings.is_none() { if let (Some(d), Some(api)) = (&spec.declared_servings, &servings) { if d != api {
                 ctx.oracle_fail(inp.clone(), format!("servings() returns {api:?}, declared in this order: {d:?}"), "c08:servings-order".into()); } } }
@@ -340,6 +383,13 @@ fn recipe_case(ctx: &mut Ctx, w: &World, parser: &CooklangParser, spec: &RecipeS
         Ok(Some(after)) => {
             ctx.case(format!("sc {} default {items}", w.tag), render_scaled_recipe(&after), nontrivial, inp.clone());
             check_default(ctx, &inp, &before, &after);
+            if let (Some(full), None) = (&full, &force_servings) {
+                scm_case(ctx, format!("scm {} default {full}", w.tag), &meta_before, &after, &inp);
+                let mut conv = after;
+                if guarded(|| { let _ = conv.convert(cooklang::convert::System::Imperial, &w.conv); }).is_ok() {
+                    scm_case(ctx, format!("scm {} dconvert imperial {full}", w.tag), &meta_before, &conv, &format!("{inp}, convert(Imperial)"));
+                }
+            }
         }
         Ok(None) => {}
         Err(p) => ctx.oracle_fail(inp, format!("panic {p}"), panic_signature(&p)),
